@@ -42,6 +42,8 @@ SLICES = {
     "lists": ({"root": {"para", "ordered_list", "bullet_list", "fence", "html_block", "h2"}, "ordered_list": {"list_item"}, "bullet_list": {"list_item"},
                "list_item": {"para", "fence", "bullet_list", "blockquote", "h3", "hr"}, "blockquote": {"para", "ordered_list", "hr", "h1"}}, 4, 5),
     "headings": ({"root": {"h1", "h2", "h3", "h4", "para"}}, 5, 6),
+    "tables": ({"root": {"tab10", "tab21", "tab22", "tab31", "para", "blockquote", "bullet_list", "h1"}, "blockquote": {"tab21", "para"},
+                "bullet_list": {"list_item"}, "list_item": {"tab22", "para"}}, 3, 4),
     "misc": ({"root": {"ipara", "dl", "para"}, "ipara": {"text", "s", "math_inline", "html_inline", "code_inline"}, "s": {"text", "em"}, "em": {"text"},
               "dl": {"dt", "dd"}, "dt": {"text", "em"}, "dd": {"para", "bullet_list"}, "bullet_list": {"list_item"}, "list_item": {"para"}}, 5, 6),
 }
@@ -136,6 +138,28 @@ def concretize(ev):
                 inner = join(blocks())
                 pos[0] += 1
                 out.append([("> " + ln) if ln else ">" for ln in inner])
+            elif k == "table":
+                rows = []
+                aligns = []
+                while ev[pos[0]]["e"] == "open" and ev[pos[0]]["k"] in ("thead", "tbody"):
+                    pos[0] += 1
+                    while ev[pos[0]]["e"] == "open" and ev[pos[0]]["k"] == "tr":
+                        pos[0] += 1
+                        cells = []
+                        while ev[pos[0]]["e"] == "open" and ev[pos[0]]["k"] in ("th", "td"):
+                            c = ev[pos[0]]
+                            pos[0] += 1
+                            txt = inline()
+                            pos[0] += 1
+                            cells.append(txt)
+                            if c["k"] == "th":
+                                aligns.append({"text-left": ":--", "text-right": "--:", "text-center": ":-:"}.get(c["a"], "---"))
+                        pos[0] += 1
+                        rows.append(cells)
+                    pos[0] += 1
+                pos[0] += 1
+                lines = ["| " + " | ".join(rows[0]) + " |", "|" + "|".join(aligns) + "|"] + ["| " + " | ".join(r_) + " |" for r_ in rows[1:]]
+                out.append(lines)
             elif k in ("bullet_list", "ordered_list"):
                 lines = []
                 n = 0
